@@ -19,6 +19,7 @@ E1 == Leaf \cup {Tern(c, N, IntL(2)) : c \in NestCond} \cup {Tern(c, x, y) : c \
 None == NoneS(0)
 Brk == BrkS(0)
 S0 == {SExpr(e) : e \in E1} \cup {Let("x", e) : e \in Leaf \cup {Tern(C, N, IntL(2))}} \cup {Ret(e) : e \in Leaf} \cup {Block(<<>>)}
+      \cup {LetT("x", "int", e) : e \in Leaf \cup {Tern(C, N, IntL(2))}} \cup {LetU("x", "int")}       \* declarations with a type annotation
 Arm == S0 \cup {Block(<<s>>) : s \in {SExpr(N), Let("w", N), Ret(IntL(5))}} \cup {Block(<<Let("w", Tern(D, IntL(1), IntL(2)))>>)}
 IfS == {If(c, a, b) : c \in {C, Or(C, D)}, a \in Arm, b \in Arm \cup {None}}
         \cup {If(c, a, b) : c \in NestCond, a \in {SExpr(N), Ret(IntL(5))}, b \in {None, SExpr(IntL(6))}}
@@ -45,7 +46,7 @@ SwL == {Sw(N, cs, d) : cs \in {<<Case(IntL(0), <<SExpr(IntL(70))>>), Case(LabT, 
                                 <<Case(LabT, <<>>), Case(IntL(5), <<SExpr(IntL(74))>>), Case(LabA, <<SExpr(IntL(75)), Brk>>)>>},
                          d \in {None, Def(1, <<SExpr(IntL(76))>>), Def(0, <<>>)}}
 S1 == S0 \cup IfS \cup SwOk \cup SwT \cup SwL \cup LitIf
-Follow == {SExpr(N), Let("y", IntL(1)), Ret(IntL(7)), Let("z", Tern(C, IntL(1), IntL(2))), If(D, SExpr(IntL(8)), None)}
+Follow == {SExpr(N), Let("y", IntL(1)), Ret(IntL(7)), Let("z", Tern(C, IntL(1), IntL(2))), If(D, SExpr(IntL(8)), None), LetT("y", "int", N), LetU("y", "int")}
 Progs == {[body |-> s] : s \in S1}
          \cup {[body |-> Block(<<t, s>>)] : s \in LitIf, t \in {SExpr(IntL(9)), Let("v", N)}}
          \cup {[body |-> Block(<<s, t>>)] : s \in LitIf, t \in {Let("y", IntL(1)), SExpr(N)}}
